@@ -259,6 +259,7 @@ type curveCase struct {
 	Rects    []autog.VerifRect `json:"rects"`
 	Ctrl     [4][2]float64     `json:"ctrl"`
 	Expected string            `json:"expected"` // "inside" | "outside"
+	Note     string            `json:"note,omitempty"`
 	Got      bool              `json:"contained"`
 	Problem  string            `json:"problem,omitempty"`
 }
@@ -388,6 +389,56 @@ func genZigzagCorridor(r *Rng) corridor {
 	return c
 }
 
+// two or three tall rectangles whose shared boundary segments end where the straight line from start to end
+// ALMOST passes: the shortest path bends at a corridor vertex by a tiny angle (well under a tenth of a degree), with
+// legs hundreds of units long. A "nearly straight, simplify" shortcut that cuts such a corner leaves the corridor.
+func genShallowCorridor(r *Rng) corridor {
+	c := corridor{Class: "inside"}
+	h := float64(8 * (40 + r.Intn(100)))
+	w := float64(8 * (8 + r.Intn(12)))
+	n := 2 + r.Intn(2)
+	x0 := float64(8 * (20 + r.Intn(20)))
+	slope := float64(8*(2+r.Intn(8))) / h * float64(1-2*r.Intn(2)) // dx per unit of y along the line
+	sx := x0 + w/2
+	eps := []float64{0.25, 0.5, 1, 2}[r.Intn(4)]
+	for i := 0; i < n; i++ {
+		// the line at the top and at the bottom of this band
+		xt, xb := sx+slope*h*float64(i), sx+slope*h*float64(i+1)
+		lo, hi := math.Min(xt, xb)-w/2, math.Max(xt, xb)+w/2
+		if i+1 < n {
+			// the wall facing the line's direction ends exactly on the line at the bottom of the band: the next band's end
+			// point is moved eps beyond the line, so the path turns there
+			if slope > 0 {
+				hi = xb
+			} else {
+				lo = xb
+			}
+		}
+		// multiples of 1/4 keep the coordinates dyadic
+		c.Rects = append(c.Rects, autog.VerifRect{TLX: math.Floor(lo*4) / 4, TLY: h * float64(i), BRX: math.Ceil(hi*4) / 4, BRY: h * float64(i+1)})
+		if i+1 < n {
+			if slope > 0 {
+				c.Rects[i].BRX = math.Round(xb*4) / 4
+			} else {
+				c.Rects[i].TLX = math.Round(xb*4) / 4
+			}
+		}
+	}
+	c.Start = [2]float64{math.Round(sx*4) / 4, 0}
+	ex := sx + slope*h*float64(n)
+	if slope > 0 {
+		ex += eps * float64(n)
+	} else {
+		ex -= eps * float64(n)
+	}
+	c.End = [2]float64{math.Round(ex*4) / 4, h * float64(n)}
+	l := c.Rects[n-1]
+	if c.End[0] <= l.TLX || c.End[0] >= l.BRX {
+		c.End[0] = (l.TLX + l.BRX) / 2
+	}
+	return c
+}
+
 func runSpline(fs *flag.FlagSet, prop string, seed uint64, n int, out, file string) int {
 	r := NewRng(seed)
 	var res struct {
@@ -405,18 +456,22 @@ func runSpline(fs *flag.FlagSet, prop string, seed uint64, n int, out, file stri
 			cc.Problem = "a cubic that leaves the corridor by more than 1 unit through the interior of a side is accepted as contained"
 		}
 		if cc.Expected == "inside" && !cc.Got {
-			cc.Problem = "a cubic that stays at least 0.5 inside the corridor is rejected"
+			// not a violation of C20 (a rejected curve is split further, the result still stays inside); counted only.
+			// The test is not translation invariant: it rejects inside curves when coordinates are negative.
+			cc.Note = "a cubic that stays at least 0.5 inside the corridor is rejected"
 		}
 		res.Curves = append(res.Curves, cc)
 	}
 	stuck := 0
-	for i := 0; i < 3*n && stuck < 4; i++ {
+	for i := 0; i < 4*n && stuck < 4; i++ {
 		c := genCorridor(r, "inside")
-		switch i % 3 {
+		switch i % 4 {
 		case 1:
 			c = genZigzagCorridor(r)
 		case 2:
 			c = genStairCorridor(r)
+		case 3:
+			c = genShallowCorridor(r)
 		}
 		sc := runSplineCase(c)
 		if sc.Outcome == 2 {
